@@ -12,7 +12,7 @@ use syn::{
 use crate::{
     bound::{Bound, Bounds, WhereClauseBuilder},
     common::BinaryOp,
-    syn_utils::{expand_self, ref_target},
+    syn_utils::{expand_self, parenthesize_invisible_groups, ref_target},
 };
 
 use self::compare_op::{
@@ -55,7 +55,7 @@ enum DeriveItemArgsOption {
 }
 
 pub fn build_derive(input: TokenStream) -> Result<TokenStream> {
-    build_from_derive_input(parse2(input)?)
+    build_from_derive_input(parse2(parenthesize_invisible_groups(input))?)
 }
 fn build_from_derive_input(item: DeriveInput) -> Result<TokenStream> {
     let mut kinds = HelperAttributeKinds::new(true);
